@@ -226,6 +226,27 @@ def _check_stream(res, T, schema, codec, items, stream, positions, case, feats):
 def run_shard(shard, tier, seed):
     res = H.Result(ID)
     rng = C.rng_for(seed, ID, shard['shard'])
+    # contents as long as the values at which a length field grows by an octet (C03's family, below 2**24): a length read
+    # short or long by a power of two moves the end of the encoding
+    from . import c03
+    for j, (T, v) in enumerate(c03.length_boundary_cases('quick')):
+        if j % C.NSHARDS != shard['shard']:
+            continue
+        try:
+            bt = C.try_build(res, T, v)
+            if bt is None:
+                continue
+            encs = encodings(res, bt, rng)
+            for kind, codec, e in encs[:3]:
+                for tk, t in list(tails(rng, encs[0][2]))[:2]:
+                    check_oneshot(res, bt, kind, codec, e, tk, t)
+            if encs:
+                check_stream(res, T, bt.schema, 'BER', [(v, encs[0][2]), (v, encs[-1][2])])
+            res.see('length-boundary-cases')
+        except Exception:
+            res.see('harness:error')
+            if len(res.inconclusive) < 3:
+                res.inconclusive.append('harness error: ' + H.fmt_exc())
     for i in range(shard['n']):
         ber_any = rng.random() < 0.3
         T, v = C.gen_case(rng, tier, any_maker=R.ber_any_maker if ber_any else None)
